@@ -18,6 +18,9 @@ package main
 //  D6  runtime.NumCPU/GOMAXPROCS only bounds the loop that spawns workers
 //  D7  no function in scope writes package-level (global) memory, except
 //      through sync primitives: renders do not influence one another
+//  D8  (whole library) pseudo-random numbers only from a generator seeded with a constant
+//  D9  Render / Info leave nothing of this render on the renderer value: no reference-typed
+//      field written, no scalar field set to a computed value (constants are tolerated)
 //
 // Not decided: IEEE determinism of floating point (trusted); 3MF container
 // bytes (the library documents them as non-identical).
@@ -207,21 +210,23 @@ func checkC09(ctx *Ctx, r *Report, tier string) {
 	// D9: a renderer carries configuration, not results. Whatever a Render call leaves behind in
 	// reference-typed state of its receiver (a map, a slice, a pointer: caches, scratch buffers)
 	// is seen by the next Render call on the same value, which then depends on the history of
-	// the renderer and not only on model, renderer settings and resolution. Scalar fields
-	// (warn-once flags, counters) are tolerated: they do not feed the geometry (D9 does not
-	// decide that, it is what the fields are today).
+	// the renderer and not only on model, renderer settings and resolution. The same holds for a
+	// scalar field set to a computed value (a memoised resolution is the first model's). Scalar
+	// fields set to a constant (warn-once flags, the default of an unset option) are tolerated.
+	// Info is part of the protocol (ToDXF/ToSVG/ToSTL call Info, then Render) and is held to
+	// the same rule.
 	nRender := 0
 	var renderMethods []*ssa.Function
 	for _, in := range []string{"Render3", "Render2"} {
 		if iface := lookupIface(ctx, "render", in); iface != nil {
 			for _, t := range implementersOf(ctx, iface) {
-				renderMethods = append(renderMethods, methodOf(ctx, t, "Render"))
+				renderMethods = append(renderMethods, methodOf(ctx, t, "Render"), methodOf(ctx, t, "Info"))
 			}
 		}
 	}
 	// the dual-contouring renderers have a Render method of their own shape (channel output)
 	for _, fn := range ctx.srcFuncs("render/dc") {
-		if fn.Name() == "Render" && fn.Signature.Recv() != nil && fn.Parent() == nil {
+		if (fn.Name() == "Render" || fn.Name() == "Info") && fn.Signature.Recv() != nil && fn.Parent() == nil {
 			renderMethods = append(renderMethods, fn)
 		}
 	}
@@ -241,7 +246,15 @@ func checkC09(ctx *Ctx, r *Report, tier string) {
 					if ft := fieldType(st, w.field); ft != nil {
 						switch ft.Underlying().(type) {
 						case *types.Basic:
-							continue // scalar
+							// a scalar set to a constant (warn-once flag, default of an unset option)
+							// carries nothing of this render's model into the next one
+							if st, ok := w.origin.(*ssa.Store); ok {
+								if _, isConst := st.Val.(*ssa.Const); isConst {
+									continue
+								}
+							}
+							bad = append(bad, fmt.Sprintf("scalar field %q set to a computed value [%s]", w.field, shortKey(w.why, 120)))
+							continue
 						}
 					}
 				}
@@ -252,7 +265,7 @@ func checkC09(ctx *Ctx, r *Report, tier string) {
 		}
 	}
 	r.Counts["render_methods"] = nRender
-	r.floor("D9", 7)
+	r.floor("D9", 4)
 	r.expectControl("D9", "verifCtlStatefulRenderer")
 	// D8: model construction. Shapes built from the same parameters must be the same shape in
 	// every process: the library may draw pseudo-random numbers only from a generator it seeds
@@ -300,7 +313,7 @@ func checkC09(ctx *Ctx, r *Report, tier string) {
 	r.Counts["functions_using_rand"] = nRand
 	r.floor("D8", 2)
 	r.expectControl("D8", "VerifCtlJitter")
-	r.floor("D1", 150)
+	r.floor("D1", 100)
 	r.expectControl("D1", "VerifCtlRangeOverMap")
 	r.expectControl("D2", "VerifCtlJitter")
 	r.expectControl("D7", "VerifCtlGlobalScratch")
@@ -354,19 +367,17 @@ func checkC09(ctx *Ctx, r *Report, tier string) {
 	// D5 barrier
 	if lfn := ctx.ssaFunc("render", "(*layerYZ).Evaluate"); lfn != nil {
 		n := 0
-		allInstrs(lfn, func(b *ssa.BasicBlock, ins ssa.Instruction) {
-			if s, ok := ins.(*ssa.Send); ok {
-				n++
-				r.check("D5", fmt.Sprintf("layerYZ.Evaluate|wait-after-send#%d", n), s.Pos(), everyPathHits(s, func(x ssa.Instruction) bool { return isWaitGroupCall(x, "Wait") }), "values of a layer are read right after Evaluate returns: every batch must have completed")
-			}
-		})
+		for _, site := range batchSites(lfn) { // sends, or calls of a helper that sends (shared with C06/V5)
+			n++
+			r.check("D5", fmt.Sprintf("layerYZ.Evaluate|wait-after-send#%d", n), site.ins.Pos(), everyPathHits(site.ins, func(x ssa.Instruction) bool { return isWaitGroupCall(x, "Wait") }), "values of a layer are read right after Evaluate returns: every batch must have completed")
+		}
 		if n == 0 {
 			r.undecided("D5", "layerYZ.Evaluate", lfn.Pos(), "no send found")
 		}
 	} else {
 		r.undecided("D5", "layerYZ.Evaluate", 0, "not found")
 	}
-	r.floor("D5", 2)
+	r.floor("D5", 1)
 
 	// D6 CPU count taint
 	nCPU := 0
